@@ -25,14 +25,58 @@ def pair(t):
     return [nm(t[0]), nm(t[1])]
 
 
+FRESH = r"""
+import sys, os, json
+sys.path.insert(0, os.environ['MINGUS_REPO'])
+from mingus.core import keys
+out = {}
+for couple in keys.keys:
+    for k in couple:
+        try:
+            a = keys.get_notes(k)          # the first question about this key in this interpreter
+            a.reverse(); a.pop(); a.append('X')
+            acc = keys.get_key_signature_accidentals(k)
+            acc.sort(); acc.append('X')
+            out[k] = ['ok', [list(keys.get_notes(k)), list(keys.get_notes(k))], list(keys.get_key_signature_accidentals(k))]
+        except Exception as e:
+            out[k] = ['err', type(e).__name__]
+print(json.dumps(out))
+"""
+
+
 def run_case(c):
     R = []
+    if c["kind"] == "fresh":
+        # every key asked for the first time in a fresh interpreter, the answer edited by the caller, and asked again
+        import subprocess, sys, json
+        pr = subprocess.run([sys.executable, "-W", "ignore", "-c", FRESH], stdout=subprocess.PIPE, stderr=subprocess.PIPE, text=True)
+        if pr.returncode != 0:
+            raise RuntimeError("fresh interpreter failed: " + pr.stderr[-800:])
+        res = json.loads(pr.stdout.strip().splitlines()[-1])
+        for k in sorted(res):
+            def gn(k=k):
+                if res[k][0] != "ok":
+                    raise RuntimeError(res[k][1])
+                return res[k][1]
+            def ga(k=k):
+                if res[k][0] != "ok":
+                    raise RuntimeError(res[k][1])
+                return res[k][2]
+            i = {"k": list(k), "asked": "first in a fresh interpreter, edited by the caller, asked again"}
+            R.append(call("get_notes", i, gn, lambda o: [names(o[0]), names(o[1])]))
+            R.append(call("get_key_signature_accidentals", i, ga, names))
+        return R
     kd = c["kind"]
     if kd == "key":
         k = txt(c["k"])
         i = {"k": list(k)}
         R.append(call("is_valid_key", i, lambda: keys.is_valid_key(k), boolean))
         R.append(call("get_key_signature", i, lambda: keys.get_key_signature(k), integer))
+        # the same questions with the key given by keyword (the argument is called `key` everywhere)
+        R.append(call("get_key_signature", dict(i, given="keyword"), lambda: keys.get_key_signature(key=k), integer))
+        R.append(call("get_key_signature_accidentals", dict(i, given="keyword"), lambda: keys.get_key_signature_accidentals(key=k), names))
+        R.append(call("get_notes", dict(i, given="keyword"), lambda: [list(keys.get_notes(key=k)), list(keys.get_notes(key=k))], lambda o: [names(o[0]), names(o[1])]))
+        R.append(call("Key", dict(i, given="keyword"), lambda: keys.Key(key=k), keyobj))
         R.append(call("get_key_signature_accidentals", i, lambda: keys.get_key_signature_accidentals(k), names))
         # the caller edits the list it was handed and asks again (the answer is about the key, not about the caller)
         def again():
